@@ -45,7 +45,7 @@ _orig_part_init = Part.__init__
 def _part_init(self, *a, **kw):
     _orig_part_init(self, *a, **kw)
     r = impl.CTX
-    if r is not None and hasattr(r, 'parts'):
+    if r is not None and hasattr(r, 'parts') and not r.probing:
         r.pid[self.id] = len(r.parts)
         r.parts.append(self)
 
@@ -59,7 +59,7 @@ _orig_rr_init = _rmmod.ReservedResources.__init__
 def _rr_init(self, resource_manager, reserved_resources):
     _orig_rr_init(self, resource_manager, reserved_resources)
     r = impl.CTX
-    if r is not None and hasattr(r, 'all_resv'):
+    if r is not None and hasattr(r, 'all_resv') and not r.probing:
         r.all_resv.append(self)
 
 
@@ -199,8 +199,12 @@ def preq(s):
 
 
 class FullRunner(Runner):
+    probe = False        # C03: offer every ready part to its downstreams on a deep copy at clock advances
+    valcheck = False     # C16: check value bookkeeping on the live objects after every event
+
     def reset(self):
         super().reset()
+        self.probing = False
         self.devs = []
         self.dev_idx = {}        # id(object) -> device index
         self.maints = []
@@ -226,6 +230,8 @@ class FullRunner(Runner):
         orig_add = env.add_datapoint
 
         def add_datapoint(label, sub, dp):
+            if runner.probing:
+                return None
             runner.records.append((label, sub, dp))
             return orig_add(label, sub, dp)
         env.add_datapoint = add_datapoint
@@ -711,6 +717,8 @@ class FullRunner(Runner):
     def dump_ext(self):
         rm = self.system.resource_manager
         o = self.out
+        if self.valcheck:
+            self.dump_ext_values()
         for name, (u, c) in rm._resources.items():
             o.append(f'r {self.rid(name)} use={ival(u)} cap={ival(c)}')
         if rm._waiting_requests:
@@ -745,3 +753,103 @@ class FullRunner(Runner):
             data = jn('|', (jn(';', (self.sval(x) for x in s.data[p])) for p in s._probes))
             tm = jn(';', (ticks(x) for x in s.data.get('time', [])))
             o.append(f'n {i} data={data} time={tm} last={jn(";", (self.sval(x) for x in s.last_sense))}')
+
+
+    # ---- C03 observer: lost wake-ups (deep-copy probe at every clock advance) -----------------
+    def pre_step(self, ev):
+        if not self.probe or ev is None or self.probing:
+            return
+        if not (ev.time > self.env.now):
+            return
+        try:
+            self.run_probe()
+        except impl.StepLimit:
+            raise
+        except Exception as e:
+            self.out.append(f'harness-error probe {type(e).__name__} {e}')
+
+    def ready_parts(self):
+        out = []
+        now = self.env.now
+        for i, d in enumerate(self.devs):
+            if not isinstance(d, PartHandler) or isinstance(d, Sink) or not d.is_operational():
+                continue
+            if isinstance(d, Buffer):
+                if d._buffer and d._minimum_delay - (now - d._buffer[0][0]) <= 0:
+                    out.append((i, 'buf'))
+            elif isinstance(d, Source):
+                if d._output is not None and d.remaining_parts >= 1:
+                    out.append((i, 'out'))
+            elif d._output is not None:
+                out.append((i, 'out'))
+        return out
+
+    def run_probe(self):
+        import copy
+        ready = self.ready_parts()
+        if not ready:
+            return
+        self.probing = True
+        saved_ctx = impl.CTX
+        try:
+            for i, where in ready:
+                n = len(self.devs[i].get_sorted_downstream_list())
+                for j in range(n):
+                    impl.CTX = None
+                    devs2 = copy.deepcopy(self.devs)
+                    d2 = devs2[i]
+                    p2 = d2._buffer[0][1] if where == 'buf' else d2._output
+                    tgt = d2.get_sorted_downstream_list()[j]
+                    ok = False
+                    try:
+                        ok = tgt.give_part(p2)
+                    except Exception as e:
+                        self.out.append(f'probe-error {i} {type(e).__name__}')
+                    if ok:
+                        orig_tgt = self.devs[i].get_sorted_downstream_list()[j]
+                        self.out.append(f'lostwake {ticks(self.env.now)} dev={i} downstream={self.didx(orig_tgt)} '
+                                        f'part={self.pidx(self.devs[i]._buffer[0][1] if where == "buf" else self.devs[i]._output)}')
+        finally:
+            impl.CTX = saved_ctx
+            self.probing = False
+
+    # ---- C16: value bookkeeping on the live objects -------------------------------------------
+    def dump_ext_values(self):
+        bad = []
+        assets = list(self.system._assets)
+        for a in assets:
+            tot = a._initial_value
+            for e in a.value_history:
+                if len(e) != 4 or e[2] == 0:
+                    bad.append(f'{a.name}: malformed or zero entry {e}')
+                    continue
+                tot += e[2]
+                if e[3] != tot:
+                    bad.append(f'{a.name}: running total {e[3]} != {tot}')
+            if a.value != tot:
+                bad.append(f'{a.name}: value {a.value} != initial + history {tot}')
+            if isinstance(a, Source) and a.value != -a.cost_of_produced_parts:
+                bad.append(f'{a.name}: source value {a.value} != -cost of supplied parts {a.cost_of_produced_parts}')
+            if isinstance(a, Sink) and a.value != a.value_of_received_parts:
+                bad.append(f'{a.name}: sink value {a.value} != value of received parts {a.value_of_received_parts}')
+        net = self.system.get_net_value_of_assets()
+        if net != sum(a.value for a in assets):
+            bad.append(f'net value {net} != sum of asset values')
+        for p in self.live_parts():
+            if isinstance(p, Batch):
+                if p.value != sum(x.value for x in p.parts):
+                    bad.append(f'batch {self.pidx(p)} value')
+            else:
+                tot = p._initial_value + sum(e[2] for e in p.value_history)
+                if p._env is not None and p.value != tot:
+                    bad.append(f'part {self.pidx(p)}: value {p.value} != initial + history {tot}')
+        for b in bad[:3]:
+            self.out.append('valbad ' + b)
+
+
+class ProbeRunner(FullRunner):
+    probe = True
+
+
+class ValueRunner(FullRunner):
+    valcheck = True
